@@ -180,6 +180,16 @@ def asgRecv (a b : Ty) : Bool :=
        | .enum vs ci => rs.isEmpty || (!vs.isEmpty && !ci && vs.all (fun s => rxAny cfg rs s))
        | _ => false)
   | .regexp s => (match b with | .regexp s' => s == "" || s == s' | _ => false)
+  | .runtime rt nm pt =>
+      -- RuntimeType.IsAssignable (no Go types): the default accepts every Runtime; then the runtime names must agree; an empty name accepts
+      -- every name; with a pattern the name and the pattern source must agree; without one the name
+      (match b with
+       | .runtime rt' nm' pt' =>
+           if rt == "" then true else if rt != rt' then false else if nm == "" then true else
+           (match pt with
+            | some p => nm == nm' && pt' == some p
+            | none => nm == nm')
+       | _ => false)
   | .coll r =>
       (match b with
        | .coll r' => r.sub r'
